@@ -8,3 +8,14 @@ Proof. exact (graph_symmetric A n i j). Qed.
 Theorem C16_column_graph_has_no_loops A n i : i < n -> nth i (nth i (graph_of A n) []) 0 = 0.
 Proof. exact (graph_no_loops A n i). Qed.
 Print Assumptions C16_column_graph_is_symmetric.
+
+(* "the computed ordering is a permutation with a consistent inverse": what the boolean judges of the correspondence accept is
+   exactly that (the judge is part of the tie; these theorems remove it from what has to be trusted by reading) *)
+From Coq Require Import Permutation.
+Theorem C16_accepted_ordering_is_a_permutation n p : is_perm n p = true <-> Permutation (seq 1 n) p.
+Proof. split; [exact (is_perm_sound n p) | exact (is_perm_complete n p)]. Qed.
+Theorem C16_accepted_inverse_undoes_the_ordering p ip : inverse_ok p ip = true ->
+  forall i, i < length p -> nth (nth i p 0 - 1) ip 0 = S i.
+Proof. exact (inverse_ok_spec p ip). Qed.
+Print Assumptions C16_accepted_ordering_is_a_permutation.
+Print Assumptions C16_accepted_inverse_undoes_the_ordering.
